@@ -59,7 +59,17 @@ class SegmentModel:
         self.write = ix.get_method("DLISFile", "write")
         # the writer class = the class constructed with visible_record_length= on the write path
         writer_cls = None
-        for f in [self.write] + list(self.write.nested.values()):
+        # (searched in write itself, its nested functions / lambdas and the helpers it reaches: the driver code may be
+        # split off into a private method)
+        from .callgraph import CallGraph
+        cands = [self.write] + list(self.write.nested.values())
+        if getattr(self, "cg", None) is None:
+            self.cg = CallGraph(ix)
+        cg = self.cg
+        cands += [f for f in cg.reachable([self.write]) if f not in cands and f.module is self.write.module]
+        for f in cands:
+            if writer_cls is not None:
+                break
             sc = Scope(ix, f)
             for n in walk_local(f.node):
                 if isinstance(n, ast.Call) and any(k.arg == "visible_record_length" for k in n.keywords):
@@ -112,6 +122,20 @@ class SegmentModel:
                         self.vr_call = n
         if self.vr_builder is None:
             raise AnalysisError("anchor: visible record builder call inside the record loop not found")
+        # entry: the writer method the driver hands the logical records to (the record loop may sit in a helper of it)
+        self.entry = self.record_loop[0]
+        df, dn = self.writer_ctor_call
+        sc = Scope(ix, df)
+        reach_cache = {}
+        for n in walk_local(df.node):
+            if isinstance(n, ast.Call) and isinstance(n.func, ast.Attribute):
+                tg, _, _ = ix.resolve_call(n, sc)
+                for t in tg:
+                    if t.cls is writer_cls and t.parent is None:
+                        if t not in reach_cache:
+                            reach_cache[t] = set(self.cg.reachable([t])) if self.cg is not None else {t}
+                        if self.record_loop[0] in reach_cache[t] or t is self.record_loop[0]:
+                            self.entry = t
         # validator: static/regular method of the writer called from __init__ with the record length
         init = writer_cls.lookup("__init__")
         self.writer_init = init
@@ -150,9 +174,11 @@ class SegmentModel:
         if isinstance(arg, ast.Name):
             defs = [n for n in walk_local(m.node) if isinstance(n, ast.Assign) and len(n.targets) == 1
                     and isinstance(n.targets[0], ast.Name) and n.targets[0].id == arg.id]
-            if len(defs) != 1:
+            if len(defs) > 1:
                 raise AnalysisError(f"capacity variable {arg.id}: {len(defs)} definitions")
-            expr = defs[0].value
+            if defs:
+                expr = defs[0].value   # (no local definition: a parameter of a helper; the interpretation of the
+                #                         entry method computes it at the call site)
         self.capacity_src = norm(expr)
         st0, fields = self.writer_fields[0]
         self.base_cons = list(st0.cons)
@@ -228,7 +254,7 @@ class SegmentModel:
         rec = st.new_obj(lr_cls, tag="logical-record")
         X = LinExpr.sym("output_chunk_size")
         st.add(ge(X, self.vrl))
-        f = self.record_loop[0]
+        f = self.entry
         outs = it.drive(f, [writer, TupleV([rec], is_list=True), IntV(X)], {}, st)
         it.emit = orig_emit
         self.seg_outs = outs
